@@ -324,8 +324,17 @@ def _subtract_mean_and_normalize_cpu(data, do_transpose=False):
     (The array will also be transposed relative to the
     input if do_transpose)
     """
+    # rows in which every gene has the same value: their mean is not
+    # necessarily exact in floating point (e.g. seven copies of 0.1), so
+    # the mean-subtracted row can be rounding noise rather than zeros
+    if data.shape[1] > 0:
+        constant_rows = (np.max(data, axis=1) == np.min(data, axis=1))
+    else:
+        constant_rows = np.ones(data.shape[0], dtype=bool)
+
     mu = np.mean(data, axis=1)
     data = (data.transpose()-mu)
+    data[:, constant_rows] = 0.0
     norm = np.sqrt(np.sum(data**2, axis=0))
 
     # if norm=0, it means that whole cell had the same
